@@ -479,9 +479,34 @@ def _dispatch_walks(ctx: Ctx, pm: ParserModel) -> Dict[str, List[Tuple[Tuple[str
         env0: Dict[str, Any] = dict(consts)
         env0[tokv] = "<token>"
 
+        lookups: Dict[str, Any] = {}
+
+        def entry_for() -> Any:
+            h = "handler:" + pm.dispatch[T]
+            return (h,) + tuple(pm.dispatch_extra[T]) if T in pm.dispatch_extra else h
+
+        def default_entry(d: ast.AST) -> Any:
+            if isinstance(d, ast.Tuple) and d.elts:
+                h0 = handler_of(d.elts[0])
+                rest = [x.value if isinstance(x, ast.Constant) else _UNK for x in d.elts[1:]]
+                return (("handler:" + h0) if h0 else _UNK,) + tuple(rest)
+            h0 = handler_of(d)
+            return ("handler:" + h0) if h0 else _UNK
+
         def sym(e: ast.AST) -> Optional[str]:
             if norm(e) == f"{tokv}.type":
                 return "@type"
+            # a lookup of the token type in the dispatch table, wherever it is written
+            if isinstance(e, ast.Call) and isinstance(e.func, ast.Attribute) and e.func.attr == "get" and isinstance(e.func.value, ast.Name) and e.func.value.id in table_vars \
+                    and e.args and norm(e.args[0]) == f"{tokv}.type":
+                k = "@lookup:" + norm(e)
+                if k not in lookups:
+                    lookups[k] = entry_for() if T in pm.dispatch else (default_entry(e.args[1]) if len(e.args) == 2 else None)
+                return k
+            if isinstance(e, ast.Subscript) and isinstance(e.value, ast.Name) and e.value.id in table_vars and norm(e.slice) == f"{tokv}.type" and T in pm.dispatch:
+                k = "@lookup:" + norm(e)
+                lookups[k] = entry_for()
+                return k
             return None
 
         env0["@type"] = T
@@ -510,32 +535,36 @@ def _dispatch_walks(ctx: Ctx, pm: ParserModel) -> Dict[str, List[Tuple[Tuple[str
                     else:
                         h = handler_of(c.func)
                         called = called + ((h or norm(c.func)),)
-            if n.kind == "stmt" and isinstance(st, ast.Assign) and len(st.targets) == 1 and isinstance(st.targets[0], ast.Name):
-                tv = st.targets[0].id
+            if n.kind == "stmt" and isinstance(st, ast.Assign) and len(st.targets) == 1 and isinstance(st.targets[0], (ast.Name, ast.Tuple)):
                 v = st.value
                 val: Any = _UNK
-                if isinstance(v, ast.Call) and isinstance(v.func, ast.Attribute) and v.func.attr == "get" and isinstance(v.func.value, ast.Name) and v.func.value.id in table_vars \
-                        and v.args and norm(v.args[0]) == f"{tokv}.type":
-                    if T in pm.dispatch:
-                        val = "handler:" + pm.dispatch[T]
-                    elif len(v.args) == 2:
-                        h = handler_of(v.args[1])
-                        val = ("handler:" + h) if h else _UNK
-                    else:
-                        val = None
-                elif isinstance(v, ast.Subscript) and isinstance(v.value, ast.Name) and v.value.id in table_vars and norm(v.slice) == f"{tokv}.type":
-                    if T in pm.dispatch:
-                        val = "handler:" + pm.dispatch[T]
-                    else:
-                        continue  # KeyError: this path is not taken by such a token
+                dead = False
+
+                if isinstance(v, ast.Subscript) and isinstance(v.value, ast.Name) and v.value.id in table_vars and norm(v.slice) == f"{tokv}.type" and T not in pm.dispatch:
+                    dead = True  # KeyError: this path is not taken by such a token
+                elif isinstance(v, ast.Name) and v.id in env:
+                    val = env[v.id]
                 else:
+                    for x in ast.walk(v):
+                        sym(x)
+                    env.update({k_: v_ for k_, v_ in lookups.items() if v_ is not _UNK})
                     val = _bev(v, env, sym)
-                if tv == doxv:
-                    reset = isinstance(v, ast.Constant) and v.value is None
-                if val is _UNK:
-                    env.pop(tv, None)
+                if dead:
+                    continue
+                tg = st.targets[0]
+                if isinstance(tg, ast.Name):
+                    pairs = [(tg.id, val)]
+                elif isinstance(val, tuple) and len(val) == len(tg.elts) and all(isinstance(x, ast.Name) for x in tg.elts):
+                    pairs = [(x.id, y) for x, y in zip(tg.elts, val)]
                 else:
-                    env[tv] = val
+                    pairs = [(x.id, _UNK) for x in ast.walk(tg) if isinstance(x, ast.Name)]
+                for tv, vv in pairs:
+                    if tv == doxv:
+                        reset = isinstance(v, ast.Constant) and v.value is None
+                    if vv is _UNK:
+                        env.pop(tv, None)
+                    else:
+                        env[tv] = vv
             decided: Any = _UNK
             if n.kind == "test" and n.cond is not None:
                 cond = n.cond
@@ -543,6 +572,9 @@ def _dispatch_walks(ctx: Ctx, pm: ParserModel) -> Dict[str, List[Tuple[Tuple[str
                 if isinstance(cond, ast.Compare) and len(cond.ops) == 1 and norm(cond.left) == f"{tokv}.type" and isinstance(cond.comparators[0], ast.Name) and cond.comparators[0].id in table_vars:
                     decided = (T in pm.dispatch) == isinstance(cond.ops[0], ast.In)
                 else:
+                    for x in ast.walk(cond):
+                        sym(x)
+                    env.update({k_: v_ for k_, v_ in lookups.items() if v_ is not _UNK})
                     decided = _bev(cond, env, sym)
             envt2 = tuple(sorted(env.items(), key=lambda kv: kv[0]))
             for s_, lab in n.succ:
